@@ -74,6 +74,15 @@ CHECKS = [
            '(annotate_delegations_and_pools / get_delegations), regrouped with incorporate_delegation and compared with the original; '
            'placement of definitions and references is checked directly; unrepresentable families must be rejected loudly.',
       note='Bounded to 3 ids / 4 nodes / 2-3 pools and four detail values per type; empty details are outside the domain.'),
+ dict(property_id='C18', engine='E2-enum', level='exploration',
+      technique='model checking: fully exhaustive enumeration of the request grid and of catalogue entries x argument forms, brute-force Pareto oracle',
+      text='Every (core, ram, disk) request on the grid {catalogue value-1, value, value+1} U {0} per dimension (all ~37k requests) is mapped '
+           'by the real map_capacities_to_instance and judged by a brute-force oracle over the 869 catalogue entries: sufficient whenever '
+           'anything is, Pareto-minimal, largest entry otherwise; all names agree with their capacities. Every catalogue component x '
+           'naming form (type+model, combined enum member, each alias) x generated/supplied ids x five label forms x parent name is '
+           'generated and its whole tree compared with the catalogue JSON; the combined enumeration is checked to be a bijection.',
+      note='Oracle data are read from the same JSON files the library ships (the property is agreement with the catalogue). The grid is '
+           'complete for the stated value set; requests between grid values behave like a grid neighbour by monotonicity of the filter.'),
 ]
 _claimed = {c['property_id'] for c in CHECKS}
 NOT_APPLICABLE = [dict(property_id=p, reason='check not built yet in this revision (work in progress; model checking applies, see DESIGN.md)')
